@@ -29,6 +29,7 @@ type Case struct {
 	Second  int      `json:"second"`  // -1: one crash; else crash again after that many fair steps and compare again
 	PartSz  int      `json:"part_size"` // block part size (0 = 512)
 	TxBytes int      `json:"tx_bytes"`  // size of a transaction queued at every proposer (0 = none): makes WAL records large
+	EndOn   string   `json:"end_on"`    // "": crash where the schedule ends; "part"/"vote": first deliver one more in-flight block part / vote to the subject, so that record is the last one in its log
 }
 
 var opKinds = []string{
@@ -71,6 +72,7 @@ func genCase(t *rapid.T) Case {
 	}
 	c.PartSz = rapid.SampledFrom([]int{512, 512, 4096, 65536}).Draw(t, "partSize")
 	c.TxBytes = rapid.SampledFrom([]int{0, 0, 300, 3000, 9000}).Draw(t, "txBytes")
+	c.EndOn = rapid.SampledFrom([]string{"", "", "part", "part", "vote"}).Draw(t, "endOn")
 	if c.Cut >= 0 && c.TxBytes > 0 {
 		c.Cut = rapid.IntRange(0, 40000).Draw(t, "cutBig") // offsets deep inside a large record
 	}
@@ -167,6 +169,28 @@ func runCase(c Case, x *h.Ctx) {
 	if fork != "" {
 		x.Fail("fork", "%s", fork)
 		return
+	}
+	if c.EndOn != "" && sub.Alive {
+		// run on (fairly) until a message of the wanted kind is in flight to the subject, deliver it
+		// and crash right there: that record is then the last one in the subject's log
+	SEARCH:
+		for tries := 0; tries < 80; tries++ {
+			for i, f := range net.InFlight {
+				if f.To != sub.ID {
+					continue
+				}
+				_, isPart := f.Msg.(*pbft.BlockPartMessage)
+				_, isVote := f.Msg.(*pbft.VoteMessage)
+				if (c.EndOn == "part" && isPart) || (c.EndOn == "vote" && isVote) {
+					net.Deliver(i, false)
+					x.Labelf("ended-on:%s", c.EndOn)
+					break SEARCH
+				}
+			}
+			if !d.FairStep() {
+				break
+			}
+		}
 	}
 	rs := sub.RS()
 	lockedAtCrash = rs.LockedBlock != nil
